@@ -15,7 +15,7 @@ VO = ["theories/Base/Num.vo", "theories/Base/Flat.vo", "theories/Post/Tradeoff.v
       "theories/Post/Tradeoff_proofs.vo", "theories/Post/Hull_proofs.vo", "theories/Post/Interp_proofs.vo",
       "theories/Post/ThreshOpt_proofs.vo"]
 REQUIRES = ["From FL Require Import Num Flat Tradeoff Hull Interp ThreshOpt."]
-TRANSLATORS = []
+TRANSLATORS = ["t_metricdict", "t_hull"]
 
 SIMPLE = {"selection_rate_parity": "SelRate", "demographic_parity": "SelRate",
           "false_positive_rate_parity": "FPR", "false_negative_rate_parity": "FNR",
@@ -94,7 +94,7 @@ def cases(pid, tier, seed):
     out = []
     cfgs = all_configs()
     tabs = exhaustive_tables(5 if tier == "quick" else 6)
-    per = 3 if tier == "quick" else 8
+    per = 3 if tier == "quick" else 6
     r0 = Rng(seed, "C04C05", "rot")
     start = r0.randint(0, len(cfgs) - 1)
     stride = 47                      # coprime with len(cfgs) = 378: every config is visited in turn
@@ -107,25 +107,30 @@ def cases(pid, tier, seed):
             rows = list(t)
             r.shuffle(rows)
             out.append(_mk(rows, cfg, r.choice(SCALES), r.choice(OFFSETS)))
-    n = {"quick": 400, "thorough": 6000}[tier]
+    n = {"quick": 500, "thorough": 6000}[tier]
     for i in range(n):
         r = Rng(seed, "C04C05", "rnd", i)
         ng = r.randint(2, 5)
-        nl = r.randint(1, 5)
+        nl = 1 if r.chance(1, 20) else r.randint(2, 5)
         rows = []
         for g in range(ng):
             m = r.randint(2, 8)
             labs = [0, 1] + [r.randint(0, 1) for _ in range(m - 2)]
+            mode = r.randint(0, 3)      # 0: uninformative, 1-2: informative, 3: anti-informative (flip matters)
             for l in labs:
-                # informative scores more often than not, so that hulls have interior vertices
-                s = r.randint(0, nl - 1)
-                if r.chance(1, 2):
-                    s = min(nl - 1, max(0, s + (1 if l else -1)))
+                if mode == 0 or r.chance(1, 4):
+                    s = r.randint(0, nl - 1)
+                else:
+                    hi = (l == 1) != (mode == 3)
+                    s = r.randint(nl // 2, nl - 1) if hi else r.randint(0, (nl - 1) // 2)
                 rows.append([g, l, s])
         r.shuffle(rows)
-        c = r.choice(CONSTRAINTS6 + ["selection_rate_parity"])
-        o = r.choice(EO_OBJ if c == "equalized_odds" else SIMPLE_OBJ)
-        gsz = r.choice(GRIDS + [6, 8, 16, 20, 50, 100, 1000] + ([r.randint(1, 1000)] if r.chance(1, 2) else []))
+        c = r.choice(CONSTRAINTS6 + ["selection_rate_parity", "equalized_odds"])
+        o = r.choice(EO_OBJ if c == "equalized_odds" else SIMPLE_OBJ + ["accuracy_score", "balanced_accuracy_score"] * 2)
+        if r.chance(1, 12):
+            gsz = r.choice([100, 1000, r.randint(51, 1000)])
+        else:
+            gsz = r.choice(GRIDS + [6, 8, 9, 16, 20, 50, r.randint(1, 50)])
         out.append(_mk(rows, (c, o, r.chance(1, 2), gsz), r.choice(SCALES), r.choice(OFFSETS)))
     return out
 
